@@ -111,4 +111,28 @@ func TestVerifE4Races(t *testing.T) {
 		}
 	}
 	fmt.Printf("RACE register-vs-topic-delete bad=%d rounds=%d\n", torn, rounds)
+
+	// POST /channel/create?topic=w&channel=c  ||  POST /topic/delete?topic=w : afterwards both keys exist
+	// (delete; create) or neither (create; delete) — never the topic without the channel or the reverse
+	post := func(target string) {
+		w := httptest.NewRecorder()
+		env.h.ServeHTTP(w, httptest.NewRequest("POST", target, nil))
+	}
+	torn, rounds = 0, 0
+	deadline = time.Now().Add(budget)
+	for time.Now().Before(deadline) && torn < 3 {
+		post("/topic/delete?topic=w")
+		var wg sync.WaitGroup
+		wg.Add(2)
+		go func() { defer wg.Done(); post("/channel/create?topic=w&channel=c") }()
+		go func() { defer wg.Done(); post("/topic/delete?topic=w") }()
+		wg.Wait()
+		rounds++
+		hasTopic, _ := env.has("topic", "w", "", "")
+		hasChan, _ := env.has("channel", "w", "c", "")
+		if hasTopic != hasChan {
+			torn++
+		}
+	}
+	fmt.Printf("RACE create-channel-vs-topic-delete bad=%d rounds=%d\n", torn, rounds)
 }
